@@ -17,21 +17,24 @@ exec(open(os.path.join(V, "scripts", "manifest_table.py")).read())
 
 # clauses decided by rules added after the second round of seeded changes (DESIGN.md 8.6)
 EXTRA = {
- "C02": " The routing decision function (R03.1/R03.2, shared with C03) is also an obligation here: the destination selected is never an empty per-level list while the documented routing names another.",
- "C04": " Value fidelity (R04.8): every float is rendered with precision -1 and the bit size of its own static type, every integer in base 10 and every time VALUE with a constant nanosecond layout with zone, the parameters being resolved to constants over all call chains.",
+ "C02": " The routing decision function (R03.1/R03.2, shared with C03) is also an obligation here: the destination selected is never an empty per-level list while the documented routing names another. Gate dominance (R01.1) and the fan-out loop rule (R13.1) are obligations here too: not admitted means nothing written, every selected destination is written.",
+ "C04": " Value fidelity (R04.8): every float is rendered with precision -1 and the bit size of its own static type, every integer in base 10 and every time VALUE with a constant nanosecond layout with zone, the parameters being resolved to constants over all call chains. The JSON escaper loses no byte: every advance of its pending-run marker is dominated by a write of the pending run (R04.8).",
  "C05": " Value fidelity as R04.8 in logfmt mode (R05.8); the de-duplication of a member list merges two attributes only when their Key() strings are equal (R05.9).",
- "C06": " The alphabet of the Go-syntax quoter behind every quoted value (R05.3, shared with C05) is also an obligation here.",
- "C07": " The name a context value is stored under is a term over the very key it was looked up with (R07.5 pairing).",
- "C08": " In each output mode no field of the pooled encoder is read before the current call wrote it (R08.5 = engine E10), and the pool discipline R02.6 is an obligation here: a payload is the record of exactly one call.",
- "C09": " The pool discipline (R02.6, shared with C02) is also an obligation here: neither the pooled context nor bytes taken from it are used after it went back to the pool.",
+ "C06": " The alphabet of the Go-syntax quoter behind every quoted value (R05.3, shared with C05) is also an obligation here. No package-level state is written on the print path (R09.2) and tag widths (R17.6) are obligations here too; padding is never cut from a fixed-size constant (R06.3).",
+ "C07": " The name a context value is stored under is a term over the very key it was looked up with (R07.5 pairing). A logger's attribute list is a fresh slice or an append to its own (R10.1 shared).",
+ "C08": " In each output mode no field of the pooled encoder is read before the current call wrote it (R08.5 = engine E10), and the pool discipline R02.6 is an obligation here: a payload is the record of exactly one call. A new formatting context starts on memory of its own (R08.3).",
+ "C09": " The pool discipline (R02.6, shared with C02) is also an obligation here: neither the pooled context nor bytes taken from it are used after it went back to the pool. Ownership of written and in-place mutated memory (R08.1/R08.2) is an obligation here too.",
  "C10": " A With... method's child is anonymous or is looked up under a name whose term mentions every parameter of the method (R10.4).",
- "C11": " WithJSONMode/WithColorMode create a child of their own: anonymous, or named by a term over their arguments (R11.5); the record order per mode (R11.3) replaces the test for one particular branch.",
- "C12": " No static route from a native entry point to the record printer avoids the function holding the termination step (R12.6).",
+ "C11": " WithJSONMode/WithColorMode create a child of their own: anonymous, or named by a term over their arguments (R11.5); the record order per mode (R11.3) replaces the test for one particular branch. Options are applied by direct calls in the order given (R11.4).",
+ "C12": " No static route from a native entry point to the record printer avoids the function holding the termination step (R12.6). The testing-mode atom is is.InTesting() itself and never reassigned (R12.7).",
  "C14": " Chains continue above an exported entry point to which another entry point forwards a non-constant message (R14.1); source() extracts the frame of the record's own pc on every path (R14.4); every emission that carries a captured pc carries nothing else (R14.5).",
- "C15": " Enabled's decision function depends on nothing but membership of the level in the table, and for a table level the answer is the logger's own on every path (R15.2).",
+ "C15": " Enabled's decision function depends on nothing but membership of the level in the table, and for a table level the answer is the logger's own on every path (R15.2). A native logger gets every record by exactly one WriteThru carrying the record's own time; which route is taken depends only on the logger's capabilities (R15.3).",
  "C16": " WriteThru, print and PrintCtx.set hand on / store the very time value they are given, and the timestamp printer prints the stored instant (R16.5).",
- "C18": " AddKnownPathMapping stores the mapping given on every path and RemoveKnownPathMapping deletes exactly the key given (R18.6).",
- "C20": " The write budget is decided with a symbolic buffer length, so it holds through any split of the formatter into helpers taking a sub-slice.",
+ "C18": " AddKnownPathMapping stores the mapping given on every path and RemoveKnownPathMapping deletes exactly the key given (R18.6). Whether a table entry applies never depends on its replacement text (R18.2) and the home rewrite does not depend on the regexp flag (R18.4); the rules cover checkpath and the private helpers it is cut into.",
+ "C01": " The registry writers (R17.3/R17.4: a refused registration leaves the tables untouched; a successful one records the treated-as level for every level value including zero) are obligations here too.",
+ "C13": " The package's own writer wrappers forward Write once, without loop or retry (R13.5).",
+ "C17": " A registration stores only the caller's own tags, each under its own width index (R17.6).",
+ "C20": " The write budget is decided with a symbolic buffer length, so it holds through any split of the formatter into helpers taking a sub-slice. No conversion to a narrower integer loses bits of the value being formatted; loops with a constant trip count are unrolled and local tables tracked cell by cell.",
 }
 for k, v in EXTRA.items():
     if k in P:
